@@ -143,7 +143,8 @@ pub fn parse_idat(
         println!("IDAT boundaries: {:?}", idat_chunk_sizes);
     }
 
-    if deflate_stream.len() < 3 {
+    // we need at least the 2 byte zlib header and the 4 byte adler32
+    if deflate_stream.len() < 6 {
         return err_exit_code(ExitCode::InvalidIDat, "No IDAT data found");
     }
 
